@@ -108,7 +108,8 @@ def cases(tier, seed, shard, nshards):
                "wparams": {"waiting_seconds_mean": rng.choice([2, 5, 20]) / tps, "num_pipelines": rng.choice([1, 3, 6]),
                            "num_operators": rng.choice([1, 3, 8]), "num_segs": 1, "cpu_io_ratio": rng.choice([0, 0.5, 1]),
                            "interactive_prob": iq[0], "query_prob": iq[1], "batch_prob": iq[2], "ticks_per_second": tps,
-                           "random_seed": rng.randint(0, 10 ** 6)}}
+                           # any non-negative integer is a seed: 0 and values beyond 32/64 bits included
+                           "random_seed": rng.choice([0, 0, 1, 2 ** 32 - 1, 2 ** 32, 2 ** 64 + 5]) if i % 5 == 0 else rng.randint(0, 10 ** 6)}}
 
 
 _MAX_ID = [0]
